@@ -68,7 +68,8 @@ theorem previousHash_cons (G : Tree) (v : View) (hc : v.Cons G) (x p : Id)
       split at hh
       · cases hh
       · apply hc.chainLink h p x hh
-        rw [← hidx, List.getElem?_eq_getElem hlt, hx]
+        have : h + 1 = List.idxOf x v.chain := hidx.symm
+        rw [this, List.getElem?_eq_getElem hlt, hx]
   · cases hs : v.sideRec x with
     | none => rw [hs] at hh; cases hh
     | some r =>
